@@ -47,7 +47,7 @@ func c20Init(rnd *rand.Rand, k int) initTab {
 func runC20(seed int64, tier string, out string) {
 	rnd := rand.New(rand.NewSource(seed))
 	meta := newMeta("C20", seed)
-	meta.Rule = "transaction A: random sequences (8-24 steps) over two CSV tables of plain SELECT (35%), SELECT FOR UPDATE (10%), INSERT / UPDATE / DELETE incl. statements hitting no row (20%), a failing UPDATE (5%), COMMIT (6%), ROLLBACK (4%), interleaved with whole-transaction commits of a second Transaction B on the same directory (20%; B's UPDATE / INSERT / DELETE + COMMIT; B is locked out when A holds the table's lock). Every read of A, A's cache flags and uncommitted maps after every step, whether B was locked out, and the files at the end are compared. Distinct = distinct abstract schedules (step kinds and tables) containing at least one commit of B between two reads of the same table by A."
+	meta.Rule = "transaction A: random sequences (8-24 steps) over two CSV tables of plain SELECT (35%), SELECT FOR UPDATE (10%; a third of them over a join of both tables, which loads both for update), INSERT / UPDATE / DELETE incl. statements hitting no row (20%), a failing UPDATE (5%), COMMIT (6%), ROLLBACK (4%), interleaved with whole-transaction commits of a second Transaction B on the same directory (20%; B's UPDATE / INSERT / DELETE + COMMIT; B is locked out when A holds the table's lock). Every read of A, A's cache flags and uncommitted maps after every step, whether B was locked out, and the files at the end are compared. Distinct = distinct abstract schedules (step kinds and tables) containing at least one commit of B between two reads of the same table by A."
 	w := &txnShard{dir: out, prop: "C20", max: 120, meta: meta, caseType: "c20case", checkFn: "check_c20",
 		header: fmt.Sprintf(txnShardHeader, "Csvq.Harness.H20")}
 	nCases := 220
@@ -90,6 +90,22 @@ func runC20(seed int64, tier string, out string) {
 						interesting = true
 					}
 					readSince[f] = true
+				case x < 45 && rnd.Intn(3) == 0: // SELECT over a join of both tables FOR UPDATE: every table of the FROM clause is loaded for update
+					g := 1 - f
+					_, jerr := a.readForUpdate(fileSQL(f) + " AS ja CROSS JOIN " + fileSQL(g) + " AS jb")
+					for _, k := range []int{f, g} {
+						var t obsTab
+						err := jerr
+						if jerr == nil {
+							t, err = a.read(fileSQL(k))
+						}
+						r.emit(fmt.Sprintf("IReadFU %s %s", coqN(k), w.optTabRef(t, err == nil)), map[string]interface{}{"A": "SELECT * FROM " + fileName(f) + " CROSS JOIN " + fileName(g) + " FOR UPDATE (table " + fileName(k) + " as read afterwards)", "result": showOpt(t, err)})
+						sched = append(sched, fmt.Sprintf("u%d", k))
+						if extSince[k] {
+							interesting = true
+						}
+						readSince[k] = true
+					}
 				case x < 45: // SELECT FOR UPDATE
 					t, err := a.readForUpdate(fileSQL(f))
 					r.emit(fmt.Sprintf("IReadFU %s %s", coqN(f), w.optTabRef(t, err == nil)), map[string]interface{}{"A": "SELECT * FROM " + fileName(f) + " FOR UPDATE", "result": showOpt(t, err)})
